@@ -57,6 +57,7 @@ def check_matrix(ctx, fname, eng, s1, s2, kw, m, pr, keep, wp, ival):
     import numpy as np
     from dtaidistance import ed
     bound = inf
+    ub = None
     if m is not None:
         bound = ival(m) if keep else m
     if pr:
@@ -67,7 +68,8 @@ def check_matrix(ctx, fname, eng, s1, s2, kw, m, pr, keep, wp, ival):
     ctx.count("c03_matrix_checks")
     l1, l2 = dtwmon.tolist(s1), dtwmon.tolist(s2)
     wit = dict(fn=fname, s1=l1, s2=l2, settings=dict(dtwmon.settings_key(kwb)), keep_int_repr=keep,
-               pruning_bound_is_not_a_path_cost=bool(pr and not dtwmon.valid_ub_domain(kw, len(l1), len(l2))))
+               pruning_bound_is_not_a_path_cost=bool(pr and not dtwmon.valid_ub_domain(kw, len(l1), len(l2))),
+               euclidean_bound=ub)
     ctx.case((fname, dtwmon.flat(l1), dtwmon.flat(l2), dtwmon.settings_key(kwb), keep), d0 not in (0, inf))
     # distance law (the returned d is cut by the explicit max_dist only)
     dcut = (ival(m) if keep else m) if m is not None else None
